@@ -119,9 +119,10 @@ Call callFromOp(const Op& op)
   return c;
 }
 
-const int NILL = 12;
+const int NILL = 13;
 const char* ILLNAMES[] = {"none", "no-z-role", "dbout-other-ndim", "model-other-nvar", "model-null", "neigh-null", "dbout-null",
-                          "neigh-image", "zero-count", "all-data-masked", "drift-without-column", "unknown-name", "dbin-null"};
+                          "neigh-image", "zero-count", "all-data-masked", "drift-without-column", "unknown-name", "dbin-null",
+                          "negative-discretisation"};
 
 struct Invocation
 {
@@ -228,9 +229,10 @@ int invoke(Invocation& iv, int& expectedNew)
   {
     bool est = (c.optA % 4) != 3, std_ = (c.optA % 4) != 0, varz = (c.optA % 8) >= 6 && W.spec.nfex == 0;
     if (!est && !std_ && !varz) est = true;
-    bool block = (c.optB % 5) == 0 && dbout != nullptr && dbout->isGrid();
+    bool block = ((c.optB % 5) == 0 || c.illform == 13) && dbout != nullptr && dbout->isGrid();
     VectorInt nd;
     if (block) nd = VectorInt(W.spec.ndim, 2);
+    if (block && c.illform == 13) nd[0] = -2; // an invalid discretisation count: the run stage fails on it
     expectedNew = nvar * ((int)est + (int)std_ + (int)varz);
     return kriging(dbin, dbout, model, neigh, block ? EKrigOpt::BLOCK : EKrigOpt::POINT, est, std_, varz, nd);
   }
@@ -352,7 +354,8 @@ bool admissible(const std::string& k, const WorldSpec& w)
   if (k == "statsOnGrid") return w.outKind == 0;
   if (k == "krigcell") return false; // needs block extension columns: not built by this generator
   if (k == "kribayes") return w.nfex == 0 && w.nvar == 1;
-  if (k == "simtub" || k == "simtub_nc") return w.nfex == 0;
+  if (k == "simtub_nc") return w.nfex == 0;
+  if (k == "simtub") return w.nfex == 0 || w.fexInData; // with an external drift carried by both data bases
   if (k == "lstsqr" || k == "movave" || k == "movmed") return w.neighKind == 1;
   return true;
 }
@@ -594,7 +597,7 @@ struct CalcWorkload : Workload
     Rng r = stream(seed, "C19", run, "shape");
     Op w;
     w.kind = "world";
-    for (int a = 0; a < 16; a++) w.i.push_back(r.range(0, 1000));
+    for (int a = 0; a < 18; a++) w.i.push_back(r.range(0, 1000)); // [16] drift order, [17] tight moving neighbourhood
     WorldSpec spec = specFromOp(w);
     Op c;
     c.kind = "call";
@@ -708,10 +711,14 @@ struct CalcWorkload : Workload
     rr.counters["placements.executed"] += (long)chosen.size();
     for (auto& f : chosen) runOne(derived(&f, 0));
     // ---- natural failures
+    bool specOut0 = false;
+    for (auto& o : p.ops) if (o.kind == "world") specOut0 = specFromOp(o).outKind == 0;
     for (int ill = 1; ill <= NILL; ill++)
     {
       const std::string& k = cop->S(0);
       if (ill == 6 || ill == 12) continue; // null Db pointers are outside the property's quantifier (DESIGN §4 C19)
+      if (ill == 13 && !(k == "kriging" && specOut0)) continue;
+      if (ill == 2 && k == "simfft") continue; // never returns (same root cause as the 1-D canary): kept as a canary plan
       if (ill == 5 && !needsNeigh(k)) continue;
       if ((ill == 3 || ill == 4 || ill == 10) && !needsModel(k)) continue;
       if (ill == 7 && !needsNeigh(k)) continue;
